@@ -8,7 +8,7 @@ from . import gen, oracles as O, simcheck
 
 
 class Kit:
-    def __init__(self, pid, oracle, streams=(("structured", 0.66), ("pairs", 0.11), ("crossing", 0.11), ("conveyor", 0.06), ("autoabs", 0.06)), n_quick=1200, n_thorough=20000,
+    def __init__(self, pid, oracle, streams=(("structured", 0.60), ("pairs", 0.10), ("crossing", 0.10), ("conveyor", 0.06), ("autoabs", 0.06), ("gates", 0.08)), n_quick=1200, n_thorough=20000,
                  cone=None, rule="", feasible_frac=0.5, make_ops=None, facilities=None, fs_only=False, tweak=None,
                  post=None):
         self.pid, self.oracle, self.streams = pid, oracle, streams
@@ -45,7 +45,7 @@ class Kit:
         for i in range(n):
             stream = rng.choices(names, weights)[0]
             c = gen.gen_project(rng, stream=stream, facilities=self.facilities, fs_only=self.fs_only)
-            if stream not in ("pairs", "crossing", "conveyor", "autoabs") and rng.random() < self.feasible_frac:
+            if stream not in ("pairs", "crossing", "conveyor", "autoabs", "gates") and rng.random() < self.feasible_frac:
                 gen.simplify_feasible(rng, c)
             c["ops"] = self.make_ops(rng, c) if self.make_ops else [gen.gen_sim_op(rng, c, vary_init=True)]
             if stream == "autoabs" and not self.make_ops:
